@@ -26,7 +26,7 @@ fn main() {
     let args: Vec<String> = std::env::args().collect();
     let mode = args.get(1).map(|s| s.as_str()).unwrap_or("");
     let stdout = std::io::stdout();
-    let mut out = std::io::BufWriter::new(stdout.lock());
+    let mut out = std::io::BufWriter::new(stdout); // not locked: the watchdog and the scheduler print from other threads
     match mode {
         "l0" => {
             let seed: u64 = args.get(2).and_then(|s| s.parse().ok()).unwrap_or(1);
